@@ -111,10 +111,13 @@ class SqlStorage(MutableMapping):
     def __getitem__(self, item):
         try:
             with sqlite3.connect(self.dbfile) as db:
-                result = db.execute("SELECT id, uri FROM pyro_names WHERE name=?", (item,)).fetchone()
+                # a single statement, so that uri and metadata come from one consistent state of the database
+                # (lookups don't take the name server's lock: a registration could be committed in between two queries)
+                query = "SELECT n.uri, m.metadata FROM pyro_names n LEFT JOIN pyro_metadata m ON m.object=n.id WHERE n.name=?"
+                result = db.execute(query, (item,)).fetchall()
                 if result:
-                    dbid, uri = result
-                    metadata = {m[0] for m in db.execute("SELECT metadata FROM pyro_metadata WHERE object=?", (dbid,)).fetchall()}
+                    uri = result[0][0]
+                    metadata = {m[1] for m in result if m[1] is not None}
                     return uri, metadata
                 else:
                     raise KeyError(item)
